@@ -10,12 +10,6 @@
    handlers do to the live list or raise).                                                       *)
 From Asynq Require Export Base.
 
-(* what one run of the underlying computation does *)
-Inductive pout :=
-| PRet (v : val)          (* provider returns v / task body returns v           *)
-| PRaise (e : exn)        (* raises an Exception instance e                      *)
-| PBase (e : exn).        (* raises a BaseException (not caught by _compute)     *)
-
 Inductive kind :=
 | KPlain                  (* FutureBase(): _compute raises NotImplementedError   *)
 | KLazy                   (* Future(provider)                                    *)
@@ -42,6 +36,25 @@ Inductive xcls :=
 | XAlreadyComputed              (* asynq.futures.FutureIsAlreadyComputed(fut)                     *)
 | XBatching | XBatchCancelled   (* asynq.batching.BatchingError / BatchCancelledError             *)
 | XCustom.                      (* user-defined direct subclass of Exception                      *)
+
+(* what one run of the underlying computation does.  A provider / body that raises an Exception
+   raises one of some CLASS c: Future._compute (futures.py 197-201) has a single `except Exception as
+   error: self.set_error(error)` - whatever the class, the raised instance becomes the future's error,
+   also when the class is one asynq itself gives a meaning to (FutureIsAlreadyComputed raised by the
+   provider about ANOTHER future, AssertionError, StopIteration, BatchingError, ...).               *)
+Inductive pout :=
+| PRet (v : val)               (* provider returns v / task body returns v                          *)
+| PRaise (c : xcls) (e : exn)  (* raises the Exception instance e, of class c                       *)
+| PBase (e : exn)              (* raises a BaseException (not caught by Future._compute)            *)
+| PDouble.                     (* the provider is the SECOND resolver of a promise shared with another
+                                  resolver: its promise.set_value(v) raises a genuine
+                                  FutureIsAlreadyComputed(promise) - about the promise, not about
+                                  the future being computed - out of the provider                   *)
+
+(* a generator body that raises StopIteration: Python (PEP 479) turns it into a new RuntimeError
+   before AsyncTask sees it; every other class reaches the task as the raised instance            *)
+Definition gen_exn (c : xcls) (e : exn) : exn :=
+  match c with XStopIteration => E_RUNTIME | _ => e end.
 
 (* what an on_computed subscriber does when it is called (after it recorded the outcome it sees):
    a small script that can re-enter the future's subscription list                             *)
@@ -144,14 +157,17 @@ Definition compute (s : fstate) : fstate * option exn :=
     match prov s with
     | [] => (complete (with_run s []) (Ok VNone), None)
     | PRet v :: rest => (complete (with_run s rest) (Ok v), None)
-    | PRaise e :: rest => (complete (with_run s rest) (Err e), None)
+    | PRaise _ e :: rest => (complete (with_run s rest) (Err e), None)
     | PBase e :: rest => (with_run s rest, Some e)
+    | PDouble :: rest => (complete (with_run s rest) (Err E_ALREADY), None)
     end
   | KTask =>
     match prov s with
     | [] => (complete s (Ok VNone), None)                 (* closed generator: no body run *)
     | PRet v :: rest => (complete (with_run s rest) (Ok v), None)
-    | PRaise e :: rest | PBase e :: rest => (complete (with_run s rest) (Err e), None)
+    | PRaise c e :: rest => (complete (with_run s rest) (Err (gen_exn c e)), None)
+    | PBase e :: rest => (complete (with_run s rest) (Err e), None)
+    | PDouble :: rest => (complete (with_run s rest) (Err E_ALREADY), None)
     end
   end.
 
